@@ -1,6 +1,7 @@
 (* The executable guard of the statement-layer simulation theorem (C01_stmt_preserve_partial):
-   the fragment in which every variable is first assigned at top level (so it is a C global),
-   keeps one type, loop bounds do not depend on what the body assigns, loop variables are
+   the fragment in which every variable is first assigned at top level of the setup part (so it
+   is a C global) or at top level of the `while True:` body before any read of it in that body
+   (so it is a local of loop(), assigned on every pass before it is used), keeps one type, loop bounds do not depend on what the body assigns, loop variables are
    fresh, read only inside their loop and never assigned, and there is no tuple assignment.
    Each clause is forced by a counterexample (see the _refuted theorems and DESIGN.md C01). *)
 From Coq Require Import ZArith List Bool.
@@ -113,6 +114,6 @@ Definition guard_ok (p : pprog) : bool :=
   | Some D =>
       match p_main p with
       | None => true
-      | Some body => match g_block (bsize body) false D [] body with Some _ => true | None => false end
+      | Some body => match g_block (bsize body) true D [] body with Some _ => true | None => false end
       end
   end.
